@@ -1,7 +1,244 @@
-//! C12 — not implemented yet.
+//! C12 — decoded content does not depend on how the underlying stream chunks its reads.
+//!
+//! Relation: transcript(plain slice) = transcript(adversarial delivery of the same bytes), for
+//! every format driver; evaluated separately without (`<driver>`) and with (`<driver>+intr`)
+//! injected `ErrorKind::Interrupted`, so that a finding in one does not hide the other.
 
+use crate::drivers::{self, Delivery, Doc, Driver, Ev, ReadOpts, summarize};
+use crate::engine::shard::ClosureSub;
 use crate::engine::*;
+use crate::io_adv::chunk::ReadScript;
+use crate::oracle::bgzf_walk;
+use proptest::prelude::*;
+use serde::{Deserialize, Serialize};
+use std::sync::Arc;
+
+#[derive(Clone, Debug, Serialize, Deserialize)]
+pub enum Mode {
+    /// every read returns one byte
+    OneByte,
+    /// sizes cycle through the list
+    Sizes(Vec<u32>),
+    /// reads stop at every structural boundary shifted by `delta` (−2..=2), plus `sizes`
+    Boundaries { delta: i8, sizes: Vec<u32> },
+}
+
+#[derive(Clone, Debug, Serialize, Deserialize)]
+pub enum Wrap {
+    /// adversary handed to the reader directly where it only needs `Read`; default-capacity
+    /// `BufReader` where it needs `BufRead`
+    Direct,
+    /// `BufReader::with_capacity(cap, adversary)`
+    BufReader(u32),
+    /// direct `BufRead` exposing scripted windows
+    Window,
+}
+
+#[derive(Clone, Debug, Serialize, Deserialize)]
+pub struct Case {
+    pub doc: Doc,
+    pub mode: Mode,
+    pub wrap: Wrap,
+    /// pattern of injected `Interrupted` (only used by the `+intr` sub-checks)
+    pub interrupts: Vec<bool>,
+}
+
+fn sizes() -> BoxedStrategy<Vec<u32>> {
+    prop_oneof![
+        proptest::collection::vec(1u32..4, 1..4),
+        proptest::collection::vec(1u32..40, 1..6),
+        proptest::collection::vec(prop_oneof![Just(1u32), 1u32..9000, Just(65536u32), Just(1u32 << 20)], 1..5),
+    ]
+    .boxed()
+}
+
+fn mode() -> BoxedStrategy<Mode> {
+    prop_oneof![
+        1 => Just(Mode::OneByte),
+        3 => sizes().prop_map(Mode::Sizes),
+        3 => (-2i8..=2, prop_oneof![Just(vec![]), sizes()]).prop_map(|(delta, sizes)| Mode::Boundaries { delta, sizes }),
+    ]
+    .boxed()
+}
+
+fn wrap() -> BoxedStrategy<Wrap> {
+    prop_oneof![
+        3 => Just(Wrap::Direct),
+        3 => proptest::sample::select(vec![1u32, 2, 3, 5, 17, 64, 4096, 65536]).prop_map(Wrap::BufReader),
+        2 => Just(Wrap::Window),
+    ]
+    .boxed()
+}
+
+/// Offsets of structural boundaries of a file, computed without noodles.
+pub fn structural_boundaries(drv: &dyn Driver, bytes: &[u8]) -> Vec<usize> {
+    let mut v = Vec::new();
+    if drv.is_bgzf() {
+        if let Ok(members) = bgzf_walk::walk(bytes) {
+            for m in &members {
+                let s = m.cpos as usize;
+                v.push(s);
+                v.push(s + 12);
+                v.push(s + 18);
+                v.push(s + m.clen - 8);
+                v.push(s + m.clen - 4);
+            }
+        }
+    } else if drv.family() == drivers::Family::Text || matches!(drv.name(), "sam" | "vcf" | "fai") {
+        for (i, b) in bytes.iter().enumerate() {
+            if *b == b'\n' {
+                v.push(i);
+                v.push(i + 1);
+            }
+            if *b == b'\r' {
+                v.push(i);
+            }
+        }
+    } else {
+        // binary, not BGZF (CRAM, BAI, gzi, crai is gzip): fixed strides as a stand-in
+        let mut i = 0;
+        while i < bytes.len() {
+            v.push(i);
+            i += 4;
+        }
+    }
+    v.sort_unstable();
+    v.dedup();
+    v
+}
+
+fn delivery_for(drv: &dyn Driver, bytes: &[u8], c: &Case, with_interrupts: bool) -> Delivery {
+    let mut script = ReadScript::default();
+    match &c.mode {
+        Mode::OneByte => script.sizes = vec![1],
+        Mode::Sizes(s) => script.sizes = s.clone(),
+        Mode::Boundaries { delta, sizes } => {
+            script.sizes = sizes.clone();
+            script.cuts = structural_boundaries(drv, bytes)
+                .into_iter()
+                .filter_map(|b| {
+                    let x = b as i64 + *delta as i64;
+                    if x > 0 && (x as usize) < bytes.len() { Some(x as u32) } else { None }
+                })
+                .collect();
+        }
+    }
+    if with_interrupts {
+        let mut p = c.interrupts.clone();
+        if !p.iter().any(|b| *b) {
+            p = vec![true, false];
+        }
+        if !p.iter().any(|b| !*b) {
+            p.push(false);
+        }
+        script.interrupts = p;
+    }
+    match &c.wrap {
+        Wrap::Direct => Delivery::Chunk { script, bufcap: None },
+        Wrap::BufReader(cap) => Delivery::Buffered { script, bufcap: *cap },
+        Wrap::Window => Delivery::Window { script },
+    }
+}
+
+fn check(drv: &dyn Driver, c: &Case, with_interrupts: bool) -> Verdict {
+    let name = drv.name();
+    let bytes = match drivers::write_to_vec(drv, &c.doc) {
+        Ok(b) => b,
+        Err(e) => return fail1(format!("c12.baseline-write-error:{name}"), format!("writing the generated document failed: {e}")),
+    };
+    let data = Arc::new(bytes);
+    let opts = ReadOpts::default();
+    let (plain, _) = drv.read(&data, &Delivery::Plain, &c.doc, &opts);
+    if plain.iter().any(|e| matches!(e, Ev::Err { .. } | Ev::Runaway)) {
+        return fail1(format!("c12.baseline-read-error:{name}"), format!("plain-slice read of noodles' own output fails: {}", summarize(&plain)));
+    }
+    let delivery = delivery_for(drv, &data, c, with_interrupts);
+    let (adv, stats) = drv.read(&data, &delivery, &c.doc, &opts);
+    let st = stats.get();
+    if adv != plain {
+        // classify
+        let interrupted = adv.iter().find_map(|e| match e {
+            Ev::Err { stage, kind } if kind == "Interrupted" => Some(*stage),
+            _ => None,
+        });
+        let idx = adv.iter().zip(plain.iter()).position(|(a, b)| a != b).unwrap_or(adv.len().min(plain.len()));
+        let detail = format!(
+            "first difference at event {idx}: plain={} adversary={} | plain: {} | adversary: {} | delivery={}",
+            plain.get(idx).map(|e| trunc(&format!("{e:?}"), 300)).unwrap_or("<none>".into()),
+            adv.get(idx).map(|e| trunc(&format!("{e:?}"), 300)).unwrap_or("<none>".into()),
+            summarize(&plain),
+            summarize(&adv),
+            trunc(&format!("{delivery:?}"), 300)
+        );
+        return match interrupted {
+            Some(stage) if with_interrupts => {
+                // the reader gave up on the injected interrupt: a finding of its own class; what it
+                // delivered before that must still be a prefix of the reference transcript
+                let mut fails = Fails::new();
+                fails.push(format!("c12.interrupted-propagated:{name}:{stage}"), detail.clone());
+                let k = adv.iter().position(|e| matches!(e, Ev::Err { kind, .. } if kind == "Interrupted")).unwrap_or(0);
+                if k > plain.len() || adv[..k] != plain[..k] {
+                    fails.push(format!("c12.differs:{name}"), format!("events before the propagated interrupt differ from the reference: {detail}"));
+                }
+                Err(fails.0)
+            }
+            _ => fail1(format!("c12.differs:{name}"), detail),
+        };
+    }
+    let n_records = drivers::records_of(&plain).len();
+    let nontrivial = st.short_reads > 0 && (!with_interrupts || st.interrupts > 0);
+    Ok(Pass::new(nontrivial, key_of(c))
+        .label_if(st.short_reads > 0, "short-reads")
+        .label_if(st.short_reads > 20, "short-reads>20")
+        .label_if(st.interrupts > 0, "interrupts-delivered")
+        .label_if(matches!(c.mode, Mode::OneByte), "one-byte")
+        .label_if(matches!(c.mode, Mode::Boundaries { .. }), "at-boundaries")
+        .label_if(matches!(c.wrap, Wrap::Window), "window-bufread")
+        .label_if(matches!(c.wrap, Wrap::BufReader(_)), "bufreader-capacity")
+        .label_if(n_records >= 2, "records>=2")
+        .label_if(n_records == 0, "no-records")
+        .label_if(data.len() > 65536, "file>64KiB"))
+}
 
 pub fn property() -> Property {
-    Property { id: "C12", level: "exploration", rule: "", assumptions: vec![], subs: vec![], max_parallel: 16 }
+    let mut subs: Vec<Box<dyn DynSub>> = Vec::new();
+    for drv in drivers::all() {
+        for with_interrupts in [false, true] {
+            let name = if with_interrupts { format!("{}+intr", drv.name()) } else { drv.name().to_string() };
+            let dname = drv.name();
+            let heavy = matches!(dname, "bgzf");
+            let (q, t) = if heavy { (120, 3000) } else { (200, 6000) };
+            subs.push(
+                ClosureSub::<Case> {
+                    name,
+                    rule: "non-trivial = the adversary actually delivered ≥1 short read (and ≥1 Interrupted for +intr); distinct by hash of (document, script)".into(),
+                    strategy: Box::new(move |tier| {
+                        let d = drivers::by_name(dname).unwrap();
+                        (d.doc(tier), mode(), wrap(), proptest::collection::vec(any::<bool>(), 1..6))
+                            .prop_map(|(doc, mode, wrap, interrupts)| Case { doc, mode, wrap, interrupts })
+                            .boxed()
+                    }),
+                    check: Box::new(move |c| {
+                        let d = drivers::by_name(dname).unwrap();
+                        check(d.as_ref(), c, with_interrupts)
+                    }),
+                    quick: q,
+                    thorough: t,
+                    opts: SubOpts { max_shards: 4, isolate: true, hang_is_violation: true, timeout_s: (240, 3600), case_budget_s: 6, ..SubOpts::default() },
+                }
+                .boxed(),
+            );
+        }
+    }
+    Property {
+        id: "C12",
+        level: "exploration",
+        rule: "valid file per format driver (BGZF, BAM lazy+eager, SAM, SAM.gz, CRAM, VCF, VCF.gz, BCF, FASTA, FASTQ, GFF3, GTF, BED3-6, BAI, CSI, tabix, gzi, fai, crai) × delivery script (1-byte, size cycles, cuts at structural boundaries ±2, BufReader capacities 1..64Ki, direct BufRead windows) × Interrupted pattern",
+        assumptions: vec![
+            "the plain-slice read of the same bytes is the reference behaviour (the relation is metamorphic)".into(),
+            "structural boundaries come from the harness's own BGZF walker / line scan".into(),
+        ],
+        subs,
+        max_parallel: 16,
+    }
 }
